@@ -8,7 +8,7 @@ use std::net::{IpAddr, Ipv4Addr, Ipv6Addr, SocketAddr};
 use std::rc::Rc;
 
 use serde_json::{json, Value};
-use turmoil_net::{EnterGuard, HostId, KernelConfig, Net, Packet, Transport};
+use turmoil_net::{EnterGuard, KernelConfig, Net, Packet, Transport};
 use vcore::{Fnv, Rng};
 
 use crate::exec::{Exec, RoundClock};
@@ -178,9 +178,6 @@ impl Fates for RandomFates {
 pub enum Stop {
     /// every task finished and the wire went quiet
     Complete,
-    /// nothing can ever happen again (no runnable task, nothing in flight, no
-    /// retransmission pending) but tasks are still waiting
-    Fixpoint,
     /// the bounded-liveness horizon passed after the last fault
     Horizon,
     /// harness safety cap
@@ -238,7 +235,6 @@ impl Outcome {
 pub struct Wire {
     pub scn: Scn,
     guard: Option<EnterGuard>,
-    hosts: [HostId; 2],
     ips: [IpAddr; 2],
     exec: Exec,
     pub sh: Rc<Shared>,
@@ -330,7 +326,6 @@ impl Wire {
         Wire {
             scn: scn.clone(),
             guard: Some(guard),
-            hosts: [client, server],
             ips,
             exec,
             sh,
@@ -890,10 +885,6 @@ impl Wire {
             retx_seen: self.retx_seen,
             final_counts,
         }
-    }
-
-    pub fn hosts(&self) -> [HostId; 2] {
-        self.hosts
     }
 
     /// Run to a stop condition. A panic raised by the code under test is
